@@ -202,7 +202,7 @@ def run(ctx):
                 ctx.violation("unknown-method-wrong-error", dict(method=bad, error=type(e).__name__), mechanism="C18/unknown-method-accepted")
     # z-score: symmetry on dyadic alphas, conservativeness against the normal quantile
     nd = NormalDist()
-    K = 14 if quick else 20
+    K = 14 if quick else 22
     margin = None
     for j in range(1, 2**K):
         if not ctx.mine(j):
